@@ -6,6 +6,7 @@ import (
 	"encoding/json"
 	"fmt"
 	"math"
+	"os"
 	"regexp"
 	"sort"
 	"strings"
@@ -283,8 +284,8 @@ func runLakeJob(j *c9LakeJob, from int, cb func(sub int, label string, f func() 
 						if x.err != nil {
 							r.Err = x.err.Error()
 						}
-					case <-time.After(60 * time.Second):
-						r.Err = "HANG: no result after 60s"
+					case <-time.After(watchdog(60)):
+						r.Err = "HANG: no result within the watchdog"
 					}
 					return r
 				})
@@ -1010,12 +1011,16 @@ func crashClass(msg string) string {
 	if len(m) > 50 {
 		m = m[:50]
 	}
-	return "panic-other:" + m
+	m = regexp.MustCompile(`[^A-Za-z0-9]+`).ReplaceAllString(m, "-")
+	return "panic-other-" + m
 }
 
 // lakeTags names the reasons, read off the input alone, for which the vam
-// aggregation operators are expected to leave the sequential semantics.  A
-// failing vectorised run with no tag is "unexplained".
+// aggregation operators still leave the sequential semantics (the open
+// findings F-C09-1..3).  A failing vectorised run with no tag is
+// "unexplained"; the classes of the fixed defects (dictionary counts across
+// columns, null masks, constant columns in sum, pushed-down filters, pool key
+// = group key) carry no tag any more, so a regression is reported.
 func lakeTags(lj *c9LakeJob, q c9LQ, kinds string, vkinds []string, ncols int) []string {
 	ks := map[string]bool{}
 	for _, k := range strings.Split(kinds, "+") {
@@ -1026,37 +1031,21 @@ func lakeTags(lj *c9LakeJob, q c9LQ, kinds string, vkinds []string, ncols int) [
 		vk[k] = true
 	}
 	var tags []string
-	if lj.Key == q.Field {
-		tags = append(tags, "poolkey")
-	}
-	if q.Filter {
-		tags = append(tags, "filter")
-	}
 	switch q.Shape {
 	case "countby":
+		// F-C09-1: the field is not string-typed in some record
 		for k := range ks {
 			if k != "str" && k != "null" && k != "nullstring" {
 				tags = append(tags, "nonstr")
 				break
 			}
 		}
-		if ks["null"] || ks["nullstring"] {
+		// F-C09-2: a value of type null is reported as null(string)
+		if ks["null"] {
 			tags = append(tags, "nullkey")
 		}
-		if ncols != 1 && vk["Dict(*vector.String)"] {
-			// more than one column (objects x record types) reaches one leg
-			tags = append(tags, "dict-multicol")
-		}
 	case "sum":
-		for k := range vk {
-			if strings.HasPrefix(k, "Const(") {
-				tags = append(tags, "const")
-				break
-			}
-		}
-		if vkinds == nil {
-			tags = append(tags, "encoding-unknown")
-		}
+		// F-C09-3: Sum has one int64 accumulator
 		if ks["float"] {
 			tags = append(tags, "float")
 		}
@@ -1070,6 +1059,7 @@ func lakeTags(lj *c9LakeJob, q c9LQ, kinds string, vkinds []string, ncols int) [
 			tags = append(tags, "novalues")
 		}
 	}
+	_, _ = vk, ncols
 	sort.Strings(tags)
 	return tags
 }
@@ -1093,7 +1083,7 @@ func lakeSymptom(err string) string {
 }
 
 func c09Lake(o Opts, rng *Rng, res *Result, coq *strings.Builder) error {
-	ncases := 12
+	ncases := 10
 	if o.Tier == "thorough" {
 		ncases = 260
 	}
@@ -1149,6 +1139,33 @@ func c09Lake(o Opts, rng *Rng, res *Result, coq *strings.Builder) error {
 		runs[k] = &r
 		order = append(order, k)
 	}
+	// a run that hit the watchdog is re-run alone with a six times longer
+	// limit before it is believed (the machine may just be loaded)
+	for _, k := range order {
+		r := runs[k]
+		if !strings.HasPrefix(r.Err, "HANG") || k.q < 0 {
+			continue
+		}
+		lj := *jobs[k.job].Lake
+		lj.Queries = []c9LQ{jobs[k.job].Lake.Queries[k.q]}
+		lj.Pars = []int{k.par}
+		os.Setenv("C09_SLOW", "1")
+		o2, _, err := runJobs(o.Out, "lake-recheck", []c9Job{{Kind: "lake", Lake: &lj}}, 600*time.Second)
+		os.Unsetenv("C09_SLOW")
+		res.Count("lake_hang_rechecked")
+		if err != nil {
+			continue
+		}
+		for _, ro := range o2 {
+			if strings.HasPrefix(ro.Label, "agg:") {
+				continue
+			}
+			var r2 c9LakeRun
+			if json.Unmarshal(ro.Data, &r2) == nil && r2.State == k.state && r2.Par == k.par && !r2.Skipped {
+				r.Out, r.Err = r2.Out, r2.Err
+			}
+		}
+	}
 	stacks := map[key]string{}
 	for _, c := range crashes {
 		parts := strings.Split(c.Label, "|")
@@ -1199,7 +1216,8 @@ func c09Lake(o Opts, rng *Rng, res *Result, coq *strings.Builder) error {
 			case "sum":
 				shape = "SSum"
 			}
-			planCases = append(planCases, fmt.Sprintf("(%s, %d%%N, %d%%N, %d%%N, %v)", shape, r.Par, r.NObj, r.NVec, r.Vectorized))
+			sliced := q.Shape == "countby" && q.Field == lj.Key
+			planCases = append(planCases, fmt.Sprintf("(%s, %d%%N, %d%%N, %d%%N, %v, %v, %v)", shape, r.Par, r.NObj, r.NVec, q.Filter, sliced, r.Vectorized))
 		}
 		base := runs[key{k.job, k.q, k.par, "novec"}]
 		if r.State == "novec" {
@@ -1240,7 +1258,7 @@ func c09Lake(o Opts, rng *Rng, res *Result, coq *strings.Builder) error {
 			if len(tags) > 0 {
 				cause = strings.Join(tags, "+")
 			}
-			if cause != "unexplained" {
+			if len(base.Out) > 0 {
 				res.Distinctly(fmt.Sprintf("%d|%s|%s|%d", k.job, r.State, q.Src, r.Par))
 			}
 			res.Count("lake_vec_class_" + q.Shape + "_" + cause)
@@ -1343,6 +1361,15 @@ func topFunc(stack string) string {
 		return "unknown"
 	}
 	return m[1]
+}
+
+// watchdog returns the per-run time limit; C09_SLOW (set when a suspected
+// hang is re-run in isolation) multiplies it.
+func watchdog(sec int) time.Duration {
+	if os.Getenv("C09_SLOW") != "" {
+		sec *= 6
+	}
+	return time.Duration(sec) * time.Second
 }
 
 func firstLine(s string) string {
